@@ -26,8 +26,8 @@ RULE = ("random DAG x rewrite (x second rewrite) x every retained output; distin
 TRUSTED_BASE = ["reference evaluator rtc/dag.py", "cloudpickle"]
 ASSUMPTIONS = ["user functions deterministic"]
 
-REWRITES = ["copy", "pickle", "join", "or", "update_renames", "scope", "scope-and-remove", "nest", "nest-all",
-            "simplify", "split_disconnected"]
+REWRITES = ["copy", "pickle", "join", "or", "update_renames", "update_renames", "renames-original", "scope",
+            "scope-and-remove", "nest", "nest-all", "simplify", "split_disconnected"]
 
 
 def registry():
@@ -86,13 +86,36 @@ def apply_rewrite(name, p, d, names, rng):
         inv = {v: k for k, v in names.items()}
         return [q], {inv.get(k, k): v for k, v in {**{v: v for v in names.values()}, **ren}.items()} | \
             {k: ren.get(v, v) for k, v in names.items()}
+    if name == "renames-original":
+        # rename by *original* name (update_from="original"): whatever the current name of an output is (it may have
+        # been renamed before), the key is the name the function was created with.  Only names that are original
+        # everywhere are used: every output, and root parameters that no function receives under another own name.
+        q = p.copy()
+        elig = [o for o in dag.all_outputs(d)] + [r for r in dag.ROOTS if any(r in f["params"] for f in d["funcs"])
+                                                   and all(f.get("orig", {}).get(r, r) == r for f in d["funcs"])]
+        present = set(q.all_output_names) | set(q.topological_generations.root_args)
+        elig = [n for n in elig if all(f.get("orig", {}).get(n, n) == n for f in d["funcs"] if n in f["params"])
+                and "." not in names.get(n, n) and names.get(n, n) in present]
+        if any(type(f).__name__ == "NestedPipeFunc" for f in q.functions):
+            raise NotApplicable  # the original names of a nest are those of the nest, not of the functions inside
+        pick = [n for n in elig if rng.random() < 0.5] or elig[:1]
+        if not pick:
+            raise NotApplicable
+        ren = {n: n + "_q" for n in pick}
+        q.update_renames(ren, update_from="original")
+        return [q], {k: ren.get(k, v) for k, v in names.items()}
     if name in ("scope", "scope-and-remove"):
         q = p.copy()
-        q.update_scope("sc", inputs="*", outputs="*")
+        # a scope may share a prefix with existing names ("a" vs "ab"): only "<scope>." marks a name as scoped
+        cur = sorted(set(names.values()))
+        sc = rng.choice(["sc", "sc", rng.choice(cur).split(".")[-1][:1], rng.choice(cur).split(".")[-1]])
+        if any(v.startswith(sc + ".") for v in cur) or sc in {v.split(".")[-1] for v in cur} or not sc.isidentifier():
+            sc = "sc"  # (a scope equal to a parameter/output name is refused by the library)
+        q.update_scope(sc, inputs="*", outputs="*")
         if name == "scope-and-remove":
             q.update_scope(None, inputs="*", outputs="*")
-            return [q], {k: (v[3:] if v.startswith("sc.") else v) for k, v in names.items()}
-        return [q], {k: (v if v.startswith("sc.") else "sc." + v.split(".")[-1]) for k, v in names.items()}
+            return [q], {k: v.split(".")[-1] for k, v in names.items()}
+        return [q], {k: sc + "." + v.split(".")[-1] for k, v in names.items()}
     if name in ("nest", "nest-all"):
         q = p.copy()
         outs = [f.output_name for f in q.functions]
